@@ -2,15 +2,16 @@
 # One-time (after a fresh restore) build of everything the checks need, offline.
 set -e
 cd "$(dirname "$0")"
+HERE="$(pwd)"
+REPO="${VERIF_REPO:-/repo}"
 export CARGO_NET_OFFLINE=true
 mkdir -p .work/logs
-echo "[setup] building forc from /repo with hooks on (cold: ~10-13 min)"
-(cd /repo && CARGO_TARGET_DIR=/verif/.work/target-forc RUSTFLAGS="--cfg fuellabs_sway_verif --check-cfg cfg(fuellabs_sway_verif)" cargo build -p forc --offline) > .work/logs/setup-forc.log 2>&1 &
+echo "[setup] building forc from $REPO with hooks on (cold: ~10-13 min)"
+(cd "$REPO" && CARGO_TARGET_DIR="$HERE/.work/target-forc" RUSTFLAGS="--cfg fuellabs_sway_verif --check-cfg cfg(fuellabs_sway_verif)" cargo build -p forc --offline) > .work/logs/setup-forc.log 2>&1 &
 P1=$!
 echo "[setup] building the real-VM helper (vmrun)"
-(cd driver/vmrun && CARGO_TARGET_DIR=/verif/.work/target-vmrun cargo build --offline) > .work/logs/setup-vmrun.log 2>&1 &
+(cd driver/vmrun && CARGO_TARGET_DIR="$HERE/.work/target-vmrun" cargo build --offline) > .work/logs/setup-vmrun.log 2>&1 &
 P2=$!
 wait $P1 || { tail -30 .work/logs/setup-forc.log; exit 1; }
 wait $P2 || { tail -30 .work/logs/setup-vmrun.log; exit 1; }
-if [ -x tools/setup_ks.sh ]; then tools/setup_ks.sh; fi
 echo "[setup] done"
